@@ -458,6 +458,20 @@ def op_div_arith(scn):
                 aliased = True
             R.degrees[Vertex(nm)] -= 1
     out["result_aliases_operand"] = aliased
+    # comparison with things that are not divisors: unequal, never an error
+    out["eq_other"] = [r if okr else "ERR" for okr, r in (call(lambda: bool(A == "not a divisor")), call(lambda: bool(A == None)), call(lambda: bool(A != 7)))]  # noqa: E711
+    # D.remove_vertex(v): a divisor on the induced graph, the original untouched (A_after below)
+    okr, R = call(A.remove_vertex, c.name(scn["chipv"]))
+    if okr:
+        rest = [nm for i, nm in enumerate(c.names) if i != scn["chipv"]]
+        try:
+            out["rmv"] = {"graph": digest_graph(R.graph, rest), "deg": [R.degrees[Vertex(nm)] for nm in rest], "total": R.get_total_degree()}
+        except Exception as e:
+            out["rmv"] = {"unobservable": type(e).__name__}
+        if rest:
+            call(R.lending_move, rest[0])
+    else:
+        out["rmv"] = "ERR"
     out["A_after"] = ddig(c, A)
     if G2 is G or scn.get("names2") is None:
         out["B_after"] = ddig(c, B)
